@@ -387,7 +387,9 @@ def main():
                 samples.append({"obligation": o[2], "unit": unit, "clause": gl.text.split("//")[0].strip()[:300]})
         # ---- vacuity canaries: each function under contract + `ensures false` must FAIL
         fn_ids = [f["id"] for f in gen.functions if f["kind"] == "fn"]
-        if not fails and not tools:
+        known_names = set(k["obligation"] for k in known["findings"])
+        blocking = [f for f in fails if pid in f["property"] and f["obligation"] not in known_names]
+        if not blocking and not tools:
             def canary(fid):
                 try:
                     g2, p2 = build_unit(unit, cfg, args.repo, outdir, {"ensures_false": fid}, ".canary." + fid)
@@ -459,7 +461,12 @@ def main():
             out_lines.append("TOOL-ERROR: property=%s %s: %s" % (pid, t["kind"], t["message"][:1500].replace("\n", " | ")))
         rc = 2
     wall = time.time() - t0
-    discharged = total_obl - len(set(f["obligation"] for f in all_failures)) if total_obl else 0
+    # obligations of a recorded known finding are reported separately, not as discharged and not as open
+    n_known = len(set(f["obligation"] for f in mine if f["obligation"] in set(known_hits)))
+    n_open = len(set(f["obligation"] for f in mine if f["obligation"] not in set(known_hits)))
+    n_foreign = len(set(f["obligation"] for f in others))
+    total_obl = max(total_obl - n_known - n_foreign, 0)
+    discharged = total_obl - n_open if total_obl else 0
     ev = {
         "property_id": pid, "tier": tier, "seed": seed, "level": "proof",
         "coverage": {
@@ -482,6 +489,8 @@ def main():
             "bounded": pcfg.get("bounded", []),
             "samples": samples[:12] or [{"obligation": "(none labelled for this property)"}],
             "known_findings_hit": known_hits,
+            "obligations_excluded_as_known_finding": n_known,
+            "obligations_failing_but_attributed_to_other_properties": n_foreign,
             "failed_obligations": [f["obligation"] for f in mine],
             "failures_attributed_to_other_properties": sorted(set(f["obligation"] for f in others)),
             "tool_errors": [t["kind"] + ": " + t["message"][:300] for t in relevant_tool],
